@@ -2,7 +2,8 @@
 SPEC = {
     'engine': 'text', 'harness': 'text.cpp',
     'repo_srcs': ['N2kMsg.cpp', 'N2kStream.cpp', 'N2kTimer.cpp'],
-    'lean_modules': ['N2k.Props.C16'], 'props_files': ['N2k/Props/C16.lean'],
+    'translators': ['constants'],
+    'lean_modules': ['N2k.Props.Consts.C16', 'N2k.Props.C16'], 'props_files': ['N2k/Props/Consts/C16.lean', 'N2k/Props/C16.lean'],
     'case_start': ['addstr', 'addais', 'addvar', 'getstr1', 'getstr', 'getvar', 'rtstr', 'rtais', 'rtvar'],
     'trusted_base': [
         "model N2k/Model/Text.lean transcribes by hand AddStr/SetBufStr, AddAISStr, AddVarStr, GetStr (both), GetVarStr, "
